@@ -970,6 +970,32 @@ func cReasons(p *Program, r *Report, rule string) {
 	// path-sensitive part: the abstract value of the error whose text becomes the reason
 	var avBounded func(pa *Path, a AV) (bool, string)
 	avBounded = func(pa *Path, a AV) (bool, string) {
+		// a value of a numeric error type of the standard library (flate.CorruptInputError is an int64: "flate: corrupt
+		// input before offset N") has a short text whatever its value
+		if t := aggType(stripConvAll(a)); t != nil {
+			if n, ok := t.(*types.Named); ok && n.Obj().Pkg() != nil && n.Obj().Pkg().Path() == "compress/flate" && n.Obj().Name() == "CorruptInputError" {
+				return true, "flate.CorruptInputError"
+			}
+		}
+		if ad, ok := stripConvAll(a).(*Addr); ok && isLocalAllocKey(ad.K) {
+			// the local the inflater's error was extracted into with errors.As(err, &local): the type of that local
+			for _, ev := range pa.Calls("errors.As") {
+				if len(ev.Args) != 2 || !strings.Contains(keyOf(ev.Args[1]), ad.K) {
+					continue
+				}
+				if call, ok := ev.Instr.(*ssa.Call); ok && len(call.Call.Args) == 2 {
+					tgt := call.Call.Args[1]
+					if mi, ok := tgt.(*ssa.MakeInterface); ok {
+						tgt = mi.X
+					}
+					if pt, ok := tgt.Type().(*types.Pointer); ok {
+						if n, ok := pt.Elem().(*types.Named); ok && n.Obj().Pkg() != nil && n.Obj().Pkg().Path() == "compress/flate" && n.Obj().Name() == "CorruptInputError" {
+							return true, "flate.CorruptInputError extracted with errors.As"
+						}
+					}
+				}
+			}
+		}
 		e, ok := a.(*Expr)
 		if !ok || e.Op != "call" {
 			return false, "reason derives from " + a.Key()
